@@ -28,3 +28,16 @@ func TestMakeBagSet(t *testing.T) {
 		Expect: `"{a: 7}"`,
 	}).Test(t)
 }
+
+func TestMakeBagAfterParseError(t *testing.T) {
+	// A parse that fails after a '+' must not change how later documents
+	// are parsed.
+	(&sliptest.Function{
+		Source: `(make-bag "[+]")`,
+		Panics: true,
+	}).Test(t)
+	(&sliptest.Function{
+		Source: `(send (make-bag "[\"a b\" {\"k\": \"v w\"}]") :write)`,
+		Expect: `"["a b" {k: "v w"}]"`,
+	}).Test(t)
+}
